@@ -41,6 +41,9 @@ CHECKS = {
  'C15': ('metamorphic relation over generated stream histories: parse(A1 ... Ak joined by document-end markers) = concatenation of parse(Ai) with anchor ids renumbered',
          '10^5 (quick) / 2*10^6 (thorough) histories of 2..4 parts drawn from model-rendered streams, the valid test-suite corpus, hand-picked state-stressing parts (all ordered pairs exhaustively) and soups; pull and push events on two back-ends and loaded documents must be the concatenation of the parts.',
          'Differential against the parser on the parts; paired with C03 which judges the parts against the model.', '5 C15'),
+ 'C16': ('generated directive / tag scenarios against an independent tag resolver (handle table per document, percent-decoding as UTF-8)',
+         '10^5 (quick) / 2*10^6 (thorough) scenarios: 1..3 documents x 0..3 %TAG lines (5 handles x 5 prefixes) x %YAML position x reserved directive x every tag spelling on scalars, empty nodes, block and flow collections x keep_tags; expected either an error (duplicate / undeclared handle) or the exact handle+suffix of every node.',
+         'Resolver written from the property statement; escapes only in suffixes; with keep_tags later documents do not re-declare earlier handles (I7).', '5 C16'),
  'C17': ('model-based call-history testing (peek/next interpreter) with exhaustive histories on small streams + differential pull vs push',
          'Cursor model over the plain-iteration event list; all 3^n peek histories for streams <= 8 events and all <= 3-position histories for 9..12 events on small inputs and the corpus, sampled histories elsewhere; load(multi) and repeated load(single) must replay the same (event, span, error) story.',
          'Histories stop at the first error (I4).', '5 C17'),
